@@ -203,3 +203,24 @@ func init() {
 }
 
 var extraVerifDir = "/verif"
+
+// overlayFromDir maps every regular file under dir (paths relative to dir mirror the repository) onto the repository.
+func overlayFromDir(repo, dir string) (map[string][]byte, error) {
+	ov := map[string][]byte{}
+	err := filepath.Walk(dir, func(p string, fi os.FileInfo, err error) error {
+		if err != nil || fi.IsDir() {
+			return err
+		}
+		rel, err := filepath.Rel(dir, p)
+		if err != nil {
+			return err
+		}
+		b, err := os.ReadFile(p)
+		if err != nil {
+			return err
+		}
+		ov[filepath.Join(repo, rel)] = b
+		return nil
+	})
+	return ov, err
+}
